@@ -23,9 +23,11 @@ Pipeline (DESIGN.md 7/C10):
 
 Reading adopted where the property text leaves latitude (verdict "either", never a violation):
 expiry or not-before inside the 60 s leeway window; `typ` other than "JWT"; non-string unregistered
-header parameters; `ver` of 0 / non-integer; float-valued NumericDates; `aud` as an empty array or
+header parameters; float-valued NumericDates; `aud` as an empty array or
 (v1) as an array; an `iss` other than "ssr"; non-canonical trailing bits in a base64url segment;
-pssid strings of the other version's form; duplicate member names.  Time classes are built
+pssid strings of the other version's form; duplicate member names.
+NOT a latitude: a present `ver` that is not a supported version number (2, 0, "1", "2", null, true, 1.5, -1, [1], {})
+is refused on v0-shaped and on v1-shaped tokens alike ("accepted:version").  Time classes are built
 >= 15 s away from now and now +- leeway (S4); the exact boundary second is not claimed.
 """
 import json
@@ -303,6 +305,12 @@ def run(c):
         c.cov["evaluations"] = st["calls"]
         return
 
+    # the re-presentation scenario needs ~31 s of real time: run it in the background while TLC works
+    from concurrent.futures import ThreadPoolExecutor
+    reuse_out = os.path.join(c.work, "reuse.json")
+    reuse_pool = ThreadPoolExecutor(1)
+    reuse_job = reuse_pool.submit(c.sh, [binp, "reuse", reuse_out], 1800)
+
     # ---- 1. decision table: refinement I => P on every cell, oracle self-check ---------------------
     # quick: every pair of mutations; thorough: additionally every triple made of any mutation followed by two
     # mutations of the security-relevant fields (cfg, kid, alg, sig, ver, aud, exp, nbf)
@@ -427,6 +435,31 @@ def run(c):
     c.cov["evaluations"] += res["n"]
     c.cov["trace_stats"] = dict(res, decided_by_P=decided)
     c.sample({"trace_event": "string -> features by independent extractor + verdict; see spec/Snap/Trace_SnapToken.tla"})
+
+    # ---- 3b. the same token string presented again after its window ended (same verifier instance) ------
+    rc_, so_ = reuse_job.result()
+    reuse_pool.shutdown()
+    if rc_ != 0 or not os.path.exists(reuse_out):
+        c.drift("re-presentation scenario failed rc=%s" % rc_)
+    else:
+        ru = json.load(open(reuse_out))
+        c.cov["reuse_scenario"] = [{"cell": delta(it["case"]), "first": it["first"]["got"], "second": it["second"]["got"],
+                                    "first_at": it["first_at"] - it["exp"], "second_at": it["second_at"] - it["exp"]} for it in ru["items"]]
+        for it in ru["items"]:
+            base, dl = delta(it["case"])
+            late = it["second_at"] - it["exp"] - it["leeway"]
+            if late < 5:
+                c.drift("re-presentation: second presentation only %ss after exp+leeway; not judged" % late)
+                continue
+            rep = {"case": it["case"], "token": it["token"], "first": it["first"], "second": it["second"], "exp": it["exp"]}
+            if it["second"]["got"] == "ok" or it["second"].get("http") not in (None, 401) or it["second"].get("reg"):
+                c.violation("accepted:expired:same-token-presented-again",
+                            "a token accepted inside its window (%s) was accepted again %ss after exp + leeway when the same string was presented to the same "
+                            "verifier (verify: %s, router: %s, registration: %s); cell %s" % (
+                                it["first"]["got"], late, it["second"]["got"], it["second"].get("http"), it["second"].get("reg"), base), rep)
+            if it["first"]["got"] != "ok" and it["first_at"] - it["exp"] <= it["leeway"] - 5:
+                c.drift("re-presentation: first presentation inside the leeway window was refused (%s); cell %s" % (it["first"]["got"], base))
+        c.cov["evaluations"] += 2 * len(ru["items"])
 
     # ---- 4. growth: the JWKS key store behind "JWKS-resolved key" ------------------------------------
     jwks_growth(c, thorough)
